@@ -50,6 +50,15 @@ func RunInProcess(sc Scenario, p Plan, st *Stats, status *StatusPage, trace bool
 	return RunInProcessUntil(sc, p, st, status, trace, time.Time{})
 }
 
+// SeamReset / SeamStats are set (scen/seams_on.go) when the code under test was
+// built from a copy whose clock readings and random draws are redirected to the
+// simulator: SeamReset(seed) starts a run's simulated clock and seeded
+// randomness, SeamStats reports how often each was used since.
+var (
+	SeamReset func(seed uint64)
+	SeamStats func() (clock, random uint64)
+)
+
 // RunInProcessUntil is RunInProcess with a deadline (shrink candidates only).
 func RunInProcessUntil(sc Scenario, p Plan, st *Stats, status *StatusPage, trace bool, deadline time.Time) (out Outcome, ctx *RunCtx) {
 	ctx = NewRunCtx(st, status, trace)
@@ -67,7 +76,16 @@ func RunInProcessUntil(sc Scenario, p Plan, st *Stats, status *StatusPage, trace
 			panic(r)
 		}
 	}()
+	if SeamReset != nil {
+		SeamReset(PlanHash(p) | 1)
+	}
 	f := sc.Execute(p, ctx)
+	if SeamStats != nil && st != nil {
+		if nc, nr := SeamStats(); nc+nr > 0 {
+			st.Add("probe.seam.clock_readings_by_the_code_under_test", int64(nc))
+			st.Add("probe.seam.random_draws_by_the_code_under_test", int64(nr))
+		}
+	}
 	return Outcome{Fail: f, Fingerprint: ctx.Fingerprint()}, ctx
 }
 
